@@ -56,8 +56,8 @@ class DataStore(object):
             persistence.load_data(runs, discard_run_data)
 
     def get(self, filename, configurator, action):
-        # one file may be named in several ways (x.data, ./x.data, an absolute path)
-        key = os.path.abspath(filename) if filename else filename
+        # one file may be named in several ways (x.data, ./x.data, an absolute path, a link)
+        key = os.path.realpath(filename) if filename else filename
         if key not in self._files:
             source = determine_source_details(configurator)
             if configurator.use_rebench_db and source['commitId'] is None:
